@@ -79,6 +79,10 @@ def run_case(case, workdir):
         pck = PlotfileCooker(path)
         sels = [("name", names[1], [1]), ("names", [names[2], names[0]], [2, 0]), ("slice", slice(0, 2), [0, 1]),
                 ("names_adjacent_descending", [names[1], names[0]], [1, 0]), ("list_adjacent_descending", [2, 1], [2, 1])]
+        if len(names) >= 8:
+            # a run of adjacent fields followed by a further one, an unsorted array
+            sels += [("list_run_then_far", [2, 3, 7], [2, 3, 7]), ("names_run_then_far", [names[0], names[1], names[2], names[5]], [0, 1, 2, 5]),
+                     ("array_unsorted", np.array([6, 7, 1]), [6, 7, 1])]
         reused = {tag: pck[sel] for tag, sel, fidx in sels}      # ONE selector object per form, queried again and again
         nlev = ref.nlevels
         for lv in range(nlev):
